@@ -1,0 +1,227 @@
+//! C18 — wrappers around the private `AddrMap` (`socket/mapped_addrs.rs`), the three
+//! mapped-address types, `MultipathMappedAddr::from` and `to_transport_addr`
+//! (`socket/remote_map.rs`).
+//!
+//! Keys are named by small integers; [`Maps`] builds a concrete key of the right type
+//! for every number.  Besides the three real maps there is a fourth one,
+//! `AddrMap<u64, ScriptAddr>`, whose address type replays a script from its
+//! `generate()`: it runs the generic `get`/`lookup` code with forced collisions.
+//!
+//! [`lin`] is called by `AddrMap::get` / `AddrMap::lookup` right after they acquired the
+//! map's mutex: the order of its records is the order of the critical sections.
+use std::{
+    cell::{Cell, RefCell},
+    collections::{HashMap, VecDeque},
+    net::{IpAddr, Ipv6Addr, SocketAddr},
+    sync::Mutex,
+};
+
+use iroh_base::{CustomAddr, EndpointId, RelayUrl, SecretKey};
+
+use crate::socket::{
+    mapped_addrs::{
+        CustomMappedAddr, EndpointIdMappedAddr, MappedAddr, MultipathMappedAddr, RelayMappedAddr,
+        verif_c18::{self as inner, Map},
+    },
+    remote_map::verif_to_transport_addr,
+    transports,
+};
+
+thread_local! {
+    static CUR: Cell<Option<(u32, u32)>> = const { Cell::new(None) };
+    static DRAWN: RefCell<Vec<[u8; 16]>> = const { RefCell::new(Vec::new()) };
+}
+static LIN: Mutex<Vec<(u32, u32)>> = Mutex::new(Vec::new());
+static SCRIPT: Mutex<VecDeque<[u8; 16]>> = Mutex::new(VecDeque::new());
+static FALLBACK: Mutex<u64> = Mutex::new(0);
+
+/// Names the call the current thread is about to make (`None`: do not record).
+pub fn set_cur(cur: Option<(u32, u32)>) {
+    CUR.with(|c| c.set(cur));
+}
+
+/// Called inside the critical sections of `AddrMap::get` and `AddrMap::lookup`.
+pub(crate) fn lin() {
+    if let Some(cur) = CUR.with(|c| c.get()) {
+        LIN.lock().unwrap().push(cur);
+    }
+}
+
+/// Drains the recorded lock order.
+pub fn take_lin() -> Vec<(u32, u32)> {
+    std::mem::take(&mut *LIN.lock().unwrap())
+}
+
+/// Replaces the script of [`ScriptAddr::generate`].
+pub fn set_script(script: Vec<[u8; 16]>) {
+    *SCRIPT.lock().unwrap() = script.into();
+    *FALLBACK.lock().unwrap() = 0;
+}
+
+/// A mapped address type whose generator replays the script (then counts up in a range
+/// the scripts never use).
+#[derive(Debug, Copy, Clone, PartialEq, Eq, Hash)]
+pub struct ScriptAddr(Ipv6Addr);
+
+impl MappedAddr for ScriptAddr {
+    fn generate() -> Self {
+        let next = SCRIPT.lock().unwrap().pop_front();
+        let octets = match next {
+            Some(o) => o,
+            None => {
+                let mut c = FALLBACK.lock().unwrap();
+                *c += 1;
+                let mut o = [0xeeu8; 16];
+                o[8..16].copy_from_slice(&c.to_be_bytes());
+                o
+            }
+        };
+        DRAWN.with(|d| d.borrow_mut().push(octets));
+        Self(Ipv6Addr::from(octets))
+    }
+
+    fn private_socket_addr(&self) -> SocketAddr {
+        SocketAddr::new(IpAddr::from(self.0), inner::consts().5)
+    }
+}
+
+/// `(ADDR_PREFIXL, ADDR_GLOBAL_ID, ENDPOINT_ID_SUBNET, RELAY_MAPPED_SUBNET,
+/// CUSTOM_MAPPED_SUBNET, MAPPED_PORT, DEFAULT_FAKE_ADDR)` as compiled.
+pub fn consts() -> (u8, [u8; 5], [u8; 2], [u8; 2], [u8; 2], u16, SocketAddr) {
+    let c = inner::consts();
+    (c.0, c.1, c.2, c.3, c.4, c.5, SocketAddr::V6(c.6))
+}
+
+/// `transports::Addr` with keys as numbers.
+#[derive(Debug, Clone, PartialEq, Eq)]
+pub enum TAddr {
+    Ip(SocketAddr),
+    Relay(u64),
+    Custom(u64),
+}
+
+/// Kinds: 0 endpoint id, 1 relay, 2 custom, 3 scripted.
+#[derive(Debug, Default)]
+pub struct Maps {
+    e: Map<EndpointId, EndpointIdMappedAddr>,
+    r: Map<(RelayUrl, EndpointId), RelayMappedAddr>,
+    c: Map<CustomAddr, CustomMappedAddr>,
+    s: Map<u64, ScriptAddr>,
+    rev_e: HashMap<EndpointId, u64>,
+    rev_r: HashMap<(RelayUrl, EndpointId), u64>,
+    rev_c: HashMap<CustomAddr, u64>,
+}
+
+/// Number of distinct keys per map.
+pub const NKEYS: u64 = 12;
+
+pub fn endpoint_key(n: u64) -> EndpointId {
+    let mut key = [0x18u8; 32];
+    key[..8].copy_from_slice(&n.to_le_bytes());
+    SecretKey::from_bytes(&key).public()
+}
+
+/// `(url n/3, endpoint n%3)`: different keys share a url or an endpoint id.
+pub fn relay_key(n: u64) -> (RelayUrl, EndpointId) {
+    let url: RelayUrl = url::Url::parse(&format!("https://r{}.verif.invalid", n / 3))
+        .unwrap()
+        .into();
+    (url, endpoint_key(n % 3))
+}
+
+/// `CustomAddr(id n%2, data [n/2])`.
+pub fn custom_key(n: u64) -> CustomAddr {
+    CustomAddr::from_parts(n % 2, &[(n / 2) as u8])
+}
+
+fn octets_of(sa: SocketAddr) -> [u8; 16] {
+    match sa.ip() {
+        IpAddr::V6(a) => a.octets(),
+        IpAddr::V4(_) => [0; 16],
+    }
+}
+
+impl Maps {
+    pub fn new() -> Self {
+        let mut m = Self::default();
+        for n in 0..NKEYS {
+            m.rev_e.insert(endpoint_key(n), n);
+            m.rev_r.insert(relay_key(n), n);
+            m.rev_c.insert(custom_key(n), n);
+        }
+        m
+    }
+
+    /// `map.get(&key).private_socket_addr()` and the candidates the scripted generator drew.
+    pub fn get(&self, kind: u8, key: u64) -> (SocketAddr, Vec<[u8; 16]>) {
+        DRAWN.with(|d| d.borrow_mut().clear());
+        let sa = match kind {
+            0 => self.e.get(&endpoint_key(key)).private_socket_addr(),
+            1 => self.r.get(&relay_key(key)).private_socket_addr(),
+            2 => self.c.get(&custom_key(key)).private_socket_addr(),
+            _ => self.s.get(&key).private_socket_addr(),
+        };
+        (sa, DRAWN.with(|d| std::mem::take(&mut *d.borrow_mut())))
+    }
+
+    /// `V::try_from(octets)` then `map.lookup`; outer `None`: the conversion failed.
+    pub fn lookup(&self, kind: u8, octets: [u8; 16]) -> Option<Option<u64>> {
+        let ip = Ipv6Addr::from(octets);
+        match kind {
+            0 => {
+                let v = EndpointIdMappedAddr::try_from(ip).ok()?;
+                Some(self.e.lookup(&v).map(|k| self.rev_e[&k]))
+            }
+            1 => {
+                let v = RelayMappedAddr::try_from(ip).ok()?;
+                Some(self.r.lookup(&v).map(|k| self.rev_r[&k]))
+            }
+            2 => {
+                // through the IpAddr conversion, which delegates to the Ipv6Addr one
+                let v = CustomMappedAddr::try_from(IpAddr::V6(ip)).ok()?;
+                Some(self.c.lookup(&v).map(|k| self.rev_c[&k]))
+            }
+            _ => Some(self.s.lookup(&ScriptAddr(ip))),
+        }
+    }
+
+    /// `to_transport_addr(sa, relay_addrs, custom_addrs)`.
+    pub fn to_transport(&self, sa: SocketAddr) -> Option<TAddr> {
+        verif_to_transport_addr(sa, &self.r, &self.c).map(|a| match a {
+            transports::Addr::Ip(a) => TAddr::Ip(a),
+            transports::Addr::Relay(url, id) => TAddr::Relay(self.rev_r[&(url, id)]),
+            transports::Addr::Custom(a) => TAddr::Custom(self.rev_c[&a]),
+        })
+    }
+
+    /// All entries of the forward maps and of the reverse maps as `(kind, key, octets)`.
+    #[allow(clippy::type_complexity)]
+    pub fn dump(&self) -> (Vec<(u8, u64, [u8; 16])>, Vec<(u8, u64, [u8; 16])>) {
+        let mut fwd = Vec::new();
+        let mut rev = Vec::new();
+        let (a, l) = self.e.dump();
+        fwd.extend(a.iter().map(|(k, v)| (0, self.rev_e[k], octets_of(v.private_socket_addr()))));
+        rev.extend(l.iter().map(|(v, k)| (0, self.rev_e[k], octets_of(v.private_socket_addr()))));
+        let (a, l) = self.r.dump();
+        fwd.extend(a.iter().map(|(k, v)| (1, self.rev_r[k], octets_of(v.private_socket_addr()))));
+        rev.extend(l.iter().map(|(v, k)| (1, self.rev_r[k], octets_of(v.private_socket_addr()))));
+        let (a, l) = self.c.dump();
+        fwd.extend(a.iter().map(|(k, v)| (2, self.rev_c[k], octets_of(v.private_socket_addr()))));
+        rev.extend(l.iter().map(|(v, k)| (2, self.rev_c[k], octets_of(v.private_socket_addr()))));
+        let (a, l) = self.s.dump();
+        fwd.extend(a.iter().map(|(k, v)| (3, *k, v.0.octets())));
+        rev.extend(l.iter().map(|(v, k)| (3, *k, v.0.octets())));
+        (fwd, rev)
+    }
+}
+
+/// `MultipathMappedAddr::from(sa)`: `(kind, octets of the mapped address)`; kind 255 = `Ip`,
+/// returned with the socket address it carries.
+pub fn classify(sa: SocketAddr) -> (u8, [u8; 16], SocketAddr) {
+    match MultipathMappedAddr::from(sa) {
+        MultipathMappedAddr::Mixed(a) => (0, octets_of(a.private_socket_addr()), sa),
+        MultipathMappedAddr::Relay(a) => (1, octets_of(a.private_socket_addr()), sa),
+        MultipathMappedAddr::Custom(a) => (2, octets_of(a.private_socket_addr()), sa),
+        MultipathMappedAddr::Ip(a) => (255, [0; 16], a),
+    }
+}
